@@ -33,7 +33,7 @@ ASSUMPTIONS = ['programs are type-correct, terminating and error-free under the 
 TRUSTED_EXTRA = ['bridgepoint.oal.parse is used to parse the generated text for BOTH sides (parser properties are C07/C08/C13)',
                  'observation-only wrapper around ActionWalker.accept in the scratch copy (branch / iteration statistics)']
 CHUNK = 400
-CASE_TIMEOUT_S = 20
+CASE_TIMEOUT_S = 10
 BUDGET_S = {'quick': 200, 'thorough': 2400}
 SEARCH_S = {'quick': 60, 'thorough': 300}
 FUEL = 400
@@ -236,7 +236,7 @@ def attach_expectations(ctx, cases):
             raise RuntimeError('driver could not decode the case: %s\n%s' % (a[:200], c['text']))
 
 
-def generate(ctx):
+def generate(ctx, arithmetic_only=False):
     n = ctx.pick(4000, 40000)
     max_stmts = ctx.pick(25, 60)
     max_depth = ctx.pick(3, 5)
@@ -247,9 +247,17 @@ def generate(ctx):
         r = ctx.rng.fork('case', i)
         pop = G.gen_population(r.fork('pop'), max_per_class=ctx.pick(4, 5))
         params, kwargs = G.gen_kwargs(r.fork('kw'))
-        g = G.ProgGen(r.fork('prog'), max_stmts=r.randint(4, max_stmts), max_depth=r.randint(1, max_depth), params=params)
+        # the arithmetic family: every 8th program draws half of its integer literals beyond 2**53 (up to ~2**70,
+        # both signs), where float-based shortcuts stop being exact
+        arith = arithmetic_only or i % 8 == 3
+        if arith and 'p' in kwargs and r.random() < 0.5:
+            kwargs['p'] = r.choice(G.BIG_INTS)
+        g = G.ProgGen(r.fork('prog'), max_stmts=r.randint(4, max_stmts), max_depth=r.randint(1, max_depth), params=params,
+                      big_ints=0.5 if arith else 0.04)
         prog = g.gen_program()
         ctx.count('generated')
+        if arith:
+            ctx.count('generated_arithmetic_family')
         batch.append(make_case(i, pop, prog, kwargs, g.uppercase))
         if len(batch) >= 200:
             yield from attach_expectations(ctx, batch)
@@ -383,5 +391,9 @@ def shrink_candidates(case):
 
 
 def search(ctx, broken):
-    """same family, larger programs; D is evaluated against the stored expectation"""
+    """targeted search when an obligation is broken: a changed operator table / `divide` asks for the arithmetic
+    family (big operands, both signs); anything else for the general family with larger programs"""
+    text = ' '.join(str(b) for b in (broken or []))
+    if 'C04' in text or 'InterpOps' in text or 'ops_table' in text or 'translator' in text:
+        yield from generate(ctx, arithmetic_only=True)
     yield from generate(ctx)
